@@ -20,6 +20,22 @@ def main():
         out['hpke'] = sorted(b['key'] for b in doc['bodies'])
         out['hpke:sigs'] = {b['key']: b.get('sig') for b in doc['bodies'] if b.get('kind') in ('Fn', 'AssocFn') and not b.get('exported')}
         out['hpke:adts'] = {a['path']: [[f['name'], f['ty'], f.get('vis')] for v in a['variants'] for f in v['fields']] for a in doc['adts'] if a.get('kind') == 'Struct'}
+        # constructor functions that build a struct directly from their parameters: field name -> parameter index
+        ctors = {}
+        for b in doc['bodies']:
+            for blk in b['blocks']:
+                for st in blk['stmts']:
+                    rv = st.get('rv') or {}
+                    if st.get('k') == 'assign' and rv.get('k') == 'aggregate' and rv.get('agg') == 'adt' and rv.get('adt') in out['hpke:adts'] and rv['adt'] not in ctors:
+                        m = {}
+                        from hpkelint.normalize import _param_of
+                        for name, f in zip(rv.get('field_names') or [], rv.get('fields') or []):
+                            pi = _param_of(b, f)
+                            if pi is not None:
+                                m[name] = pi
+                        if m and len(m) == len(rv.get('field_names') or []):
+                            ctors[rv['adt']] = {'key': b['key'], 'map': m}
+        out['hpke:ctors'] = ctors
         out['commit'] = subprocess.check_output(['git', '-C', '/repo', 'rev-parse', commit], text=True).strip()
         with open(os.path.join(HERE, 'fixtures', 'pinned_bodies.json'), 'w') as f:
             json.dump(out, f, indent=0, sort_keys=True)
